@@ -723,7 +723,7 @@ func (e *Exec) callEffects(call *ast.CallExpr, info *types.Info, subst map[*type
 			return
 		}
 	}
-	if fi := e.prog.funcs[name]; fi != nil && depth < e.maxInl {
+	if fi := e.prog.funcs[name]; fi != nil && depth < e.maxInl && strings.HasPrefix(fi.Pkg.PkgPath, "lunar/") {
 		if seen[name] {
 			return
 		}
